@@ -498,14 +498,22 @@ class Wsdl11(XmlSchema):
         if len(port_type_list) > 0:
             for port_type_name in port_type_list:
 
-                # create binding nodes
-                binding = SubElement(root, WSDL11("binding"))
-                binding.set('name', self._get_binding_name(port_type_name))
-                binding.set('type', '%s:%s'% (pref_tns, port_type_name))
+                # get or create the binding node: services that share a
+                # port type share its binding as well
+                binding_name = self._get_binding_name(port_type_name)
+                binding = None
+                for elt in root.findall(WSDL11("binding")):
+                    if elt.get('name') == binding_name:
+                        binding = elt
 
-                transport = SubElement(binding, input_binding_ns("binding"))
-                transport.set('style', 'document')
-                transport.set('transport', self.interface.app.transport)
+                if binding is None:
+                    binding = SubElement(root, WSDL11("binding"))
+                    binding.set('name', binding_name)
+                    binding.set('type', '%s:%s'% (pref_tns, port_type_name))
+
+                    transport = SubElement(binding, input_binding_ns("binding"))
+                    transport.set('style', 'document')
+                    transport.set('transport', self.interface.app.transport)
 
                 for m in service.public_methods.values():
                     if m.port_type == port_type_name:
